@@ -309,7 +309,8 @@ impl Sim {
             at_time: self.now,
         };
         if let Some(t) = self.taint.as_ref() {
-            let derived = matches!(property, "C03" | "C04" | "C05" | "C06" | "C09" | "C12" | "C16");
+            let derived = matches!(property, "C03" | "C04" | "C05" | "C06" | "C08" | "C09" | "C12" | "C16");
+            let derived = derived || (property == "C08" && t.starts_with("C08/"));
             if derived && *t != v.key() {
                 self.stat(&format!("suppressed_consequence.{}", property));
                 return;
@@ -331,8 +332,35 @@ impl Sim {
         match Client::boot(&self.dir, &consensus, &self.plan.knobs, Arc::clone(&self.net)) {
             Ok(c) => self.client = Some(c),
             Err(u) => {
-                self.on_unwind("boot", None, u);
-                return;
+                if u.message.starts_with("VERIF-CRASH") {
+                    // died during first-run initialisation: start again
+                    self.stat("fault.crash_before_write");
+                    self.stat(&format!(
+                        "crash.site.{}",
+                        u.message.trim_start_matches("VERIF-CRASH ").trim()
+                    ));
+                    crate::runner::disarm_crash();
+                    self.incarnation += 1;
+                    match Client::boot(&self.dir, &consensus, &self.plan.knobs, Arc::clone(&self.net)) {
+                        Ok(c) => {
+                            drop(c);
+                            match Client::boot(&self.dir, &consensus, &self.plan.knobs, Arc::clone(&self.net)) {
+                                Ok(c) => self.client = Some(c),
+                                Err(u) => {
+                                    self.on_unwind("boot", None, u);
+                                    return;
+                                }
+                            }
+                        }
+                        Err(u) => {
+                            self.on_unwind("boot", None, u);
+                            return;
+                        }
+                    }
+                } else {
+                    self.on_unwind("boot", None, u);
+                    return;
+                }
             }
         }
         for proto in [
@@ -366,6 +394,53 @@ impl Sim {
         }
     }
 
+    /// The process died before a storage write: only the store survives. Reopen it (twice, to
+    /// catch "aborts on every start"), let the peers reconnect and carry on without faults.
+    fn crash_restart(&mut self, msg: &str) {
+        self.stat("fault.crash_before_write");
+        self.stat(&format!("crash.site.{}", msg.trim_start_matches("VERIF-CRASH ").trim()));
+        crate::runner::disarm_crash();
+        // the interrupted operation may have changed the stored tip already
+        self.oracle.prev_tip.clear();
+        self.oracle.prev_td = None;
+        let connected: Vec<usize> = self
+            .peers
+            .iter()
+            .filter(|p| p.session.is_some())
+            .map(|p| p.idx)
+            .collect();
+        self.net.drain();
+        self.shutdown_client();
+        self.boot_client();
+        if self.stop || self.client.is_none() {
+            return;
+        }
+        // a second start from the same store
+        self.shutdown_client();
+        self.boot_client();
+        if self.stop || self.client.is_none() {
+            return;
+        }
+        let mut o = std::mem::take(&mut self.oracle);
+        o.on_crash_restart(self);
+        self.oracle = o;
+        for p in 0..self.peers.len() {
+            // peers that were connected, and peers whose connect action is already due
+            let due = connected.contains(&p)
+                || self.plan.actions.iter().any(|t| {
+                    t.at <= self.now && matches!(t.action, Action::Connect { peer } if peer == p)
+                });
+            if due {
+                let d = 100 + mix(&[self.plan.seed, self.seq, p as u64, 0xc4a5]) % 3000;
+                self.push(self.now + d, Ev::Reconnect { peer: p });
+            }
+        }
+    }
+
+    pub fn handle_unwind(&mut self, what: &str, proto: Option<Proto>, u: Unwind) {
+        self.on_unwind(what, proto, u)
+    }
+
     fn on_unwind(&mut self, what: &str, proto: Option<Proto>, u: Unwind) {
         self.log(format!("UNWIND in {} {:?}: {} @ {}", what, proto, u.message, u.location));
         if u.message.starts_with("HARNESS") {
@@ -374,9 +449,7 @@ impl Sim {
             return;
         }
         if u.message.starts_with("VERIF-CRASH") {
-            // injected crash: handled by the crash driver
-            self.stat("crash_injected");
-            self.stop = true;
+            self.crash_restart(&u.message);
             return;
         }
         let mut o = std::mem::take(&mut self.oracle);
